@@ -112,6 +112,7 @@ macro_rules! forms_assign {
 macro_rules! harness {
     ($name:ident, $unw:expr, $body:block) => {
         #[cfg_attr(kani, kani::proof)]
+        #[cfg_attr(kani, kani::solver(minisat))]
         #[cfg_attr(kani, kani::unwind($unw))]
         #[cfg_attr(not(kani), test)]
         fn $name() {
@@ -124,6 +125,7 @@ macro_rules! harness {
 macro_rules! harness_panics {
     ($name:ident, $unw:expr, $body:block) => {
         #[cfg_attr(kani, kani::proof)]
+        #[cfg_attr(kani, kani::solver(minisat))]
         #[cfg_attr(kani, kani::unwind($unw))]
         #[cfg_attr(kani, kani::should_panic)]
         #[cfg_attr(not(kani), test)]
@@ -137,18 +139,37 @@ macro_rules! harness_panics {
 }
 
 // ---------------------------------------------------------------- probes
+macro_rules! forms_all {
+    ($obs:ident, $A:expr, $B:expr, $op:tt, $opa:tt) => {{
+        let r = ob!($obs, &$A $op &$B);
+        assert!(same(ob!($obs, $A $op $B), r));
+        assert!(same(ob!($obs, $A $op &$B), r));
+        assert!(same(ob!($obs, &$A $op $B), r));
+        let mut x = $A;
+        x $opa $B;
+        assert!(same(ob!($obs, x), r));
+        let mut y = $A;
+        y $opa &$B;
+        assert!(same(ob!($obs, y), r));
+    }};
+}
 harness!(vk_int_forms_probe_a, 7, {
     let wa: [Word; 3] = any();
     let wb: [Word; 3] = any();
-    forms_val!(obs_u, ubig_w(2, &wa), ubig_w(2, &wb), +);
+    forms_all!(obs_u, ubig_w(2, &wa), ubig_w(2, &wb), +, +=);
 });
 harness!(vk_int_forms_probe_b, 7, {
     let wa: [Word; 3] = any();
     let wb: [Word; 3] = any();
-    forms_assign!(obs_u, ubig_w(2, &wa), ubig_w(2, &wb), +, +=);
+    forms_all!(obs_u, ubig_w(3, &wa), ubig_w(2, &wb), +, +=);
 });
 harness!(vk_int_forms_probe_c, 7, {
     let wa: [Word; 3] = any();
     let wb: [Word; 3] = any();
-    forms_val!(obs_u, ubig_w(1, &wa), ubig_w(1, &wb), +);
+    forms_all!(obs_u, ubig_w(1, &wa), ubig_w(1, &wb), +, +=);
+});
+harness!(vk_int_forms_probe_d, 7, {
+    let wa: [Word; 3] = any();
+    let wb: [Word; 3] = any();
+    forms_all!(obs_u, ubig_w(3, &wa), ubig_w(3, &wb), +, +=);
 });
